@@ -47,7 +47,13 @@ func (i *InboundFee) CalcFee(amt lnwire.MilliSatoshi) int64 {
 
 	// Calculate proportional component. To keep the integer math simple,
 	// positive fees are rounded down while negative fees are rounded up.
-	fee += rate * int64(amt) / feeRateParts
+	// The amount is split into its multiple of feeRateParts and the
+	// remainder, as the plain product rate*amt overflows an int64 for
+	// amounts above ~9.2 BTC at the maximum rate. Both partial products
+	// carry the sign of the rate, so the result is unchanged.
+	amtInt := int64(amt)
+	fee += rate*(amtInt/feeRateParts) +
+		rate*(amtInt%feeRateParts)/feeRateParts
 
 	return fee
 }
